@@ -1264,5 +1264,63 @@ mod verif_deflate_core {
         kani::cover!(pend == 0 && NS_RECORDED.load(RLX) == 3, "COV:normalearly.match_recorded");
     }
 
+    /// RLE mode, first token decision (the RLE branch bypasses find_match, so nothing else bounds its distance):
+    /// a run continuing the byte before the current position may be coded as a distance-1 match only when that
+    /// byte is part of the history (dict.size != 0 -- after a Full flush it is not); the recorded run must really
+    /// be a run of that byte. Positions concrete, window content / dictionary size / flags symbolic.
+    #[kani::proof]
+    #[kani::unwind(8)]
+    #[kani::stub(DictOxide::find_match, model_find_match)]
+    #[kani::stub(record_match, model_record_match)]
+    #[kani::stub(record_literal, model_record_literal)]
+    #[kani::stub(flush_block, model_flush_block_pending)]
+    fn k_normal_rle_first_token() {
+        let mut d = any_compressor!();
+        let flags = d.params.flags;
+        kani::assume(flags & TDEFL_FORCE_ALL_RAW_BLOCKS == 0 && flags & TDEFL_RLE_MATCHES != 0);
+        NS_FLAGS.store(flags, RLX);
+        NS_RECORDED.store(0, RLX); NS_TOKENS.store(0, RLX);
+        NS_FM_POS[0].store(usize::MAX, RLX); NS_FM_POS[1].store(usize::MAX, RLX);
+        NS_CAP.store(1usize << core::cmp::max(d.params.window_bits_max, 8), RLX);
+        let pos0: usize = 40000;
+        let size0: usize = kani::any();
+        kani::assume(size0 <= LZ_DICT_SIZE - 3);
+        let prev: u8 = kani::any();
+        d.dict.b.dict[(pos0 - 1) & LZ_DICT_SIZE_MASK] = prev;
+        d.dict.lookahead_size = 0;
+        d.dict.lookahead_pos = pos0;
+        d.dict.size = size0;
+        d.params.saved_match_len = 0;
+        d.params.saved_match_dist = kani::any();
+        d.params.saved_lit = kani::any();
+        NS_SAVED_VALID.store(0, RLX);
+        NS_BASE.store(pos0, RLX);
+        NS_SIZE_AT_BASE.store(size0, RLX);
+        d.params.flush = TDEFLFlush::Sync;
+        d.params.src_pos = 0;
+        d.lz.code_position = LZ_CODE_BUF_SIZE - 7; // tight: the next token forces a block flush
+        let inb: [u8; 3] = kani::any();
+        let mut outb = [0u8; 8];
+        let ok;
+        {
+            let mut cb = CallbackOxide::new_callback_buf(&inb[..], &mut outb[..]);
+            ok = compress_normal(&mut d, &mut cb);
+        }
+        let moved = d.dict.lookahead_pos - pos0;
+        let run = inb[0] == prev && inb[1] == prev && inb[2] == prev;
+        assert!(NS_FM_POS[0].load(RLX) == usize::MAX, "OBL:normalrle.rle_mode_never_consults_the_hash_chains [C10]");
+        assert!(d.params.saved_match_len == 0, "OBL:normalrle.rle_mode_never_defers_a_match [C02 C10]");
+        assert!(moved == NS_RECORDED.load(RLX) && NS_TOKENS.load(RLX) == 1, "OBL:normalrle.one_token_then_return [C02]");
+        if moved == 3 {
+            assert!(run, "OBL:normalrle.recorded_run_repeats_the_previous_byte [C01 C10]");
+            assert!(size0 != 0, "OBL:normalrle.no_run_across_the_start_of_history [C10 C12]");
+        } else {
+            assert!(moved == 1, "OBL:normalrle.otherwise_one_literal [C02]");
+            assert!(!run || size0 == 0 || flags & TDEFL_FILTER_MATCHES != 0, "OBL:normalrle.available_run_is_exploited [C10]");
+        }
+        kani::cover!(moved == 3, "COV:normalrle.run_recorded");
+        kani::cover!(moved == 1 && run && size0 == 0, "COV:normalrle.run_refused_after_history_reset");
+    }
+
     //@PLAYBACK@
 }
